@@ -207,6 +207,19 @@ def accessor(target):
     return m.Cls.attr
 
 
+_RUNNER = []
+
+
+def run_coroutine(coro):
+    """asyncio.run(coro), without building and tearing down a new event loop for each of the ~10^6 calls:
+    asyncio.Runner is what asyncio.run itself uses; one runner (one loop) serves the whole replay process"""
+    if not hasattr(asyncio, "Runner"):
+        return asyncio.run(coro)
+    if not _RUNNER:
+        _RUNNER.append(asyncio.Runner())
+    return _RUNNER[0].run(coro)
+
+
 def do_call(target, conv, x, y):
     ST.calls = []
     if conv == "read":
@@ -224,7 +237,7 @@ def do_call(target, conv, x, y):
                 return v
             r = caller()
         elif conv == "asyncio":
-            r = asyncio.run(f.asyncio(x, y=y))
+            r = run_coroutine(f.asyncio(x, y=y))
         else:
             r = "unknown convention"
     except BaseException as e:
@@ -389,26 +402,28 @@ def run_case(case):
     return got
 
 
-def matches(o, g, step):
-    """prescribed (o['res'], one record per target) against observed"""
+def mismatch(o, g, step):
+    """prescribed (o['res'], one record per target) against observed; None if they agree, else what the failing
+    target should have held: 'active' (a replacement had to be reached) or 'restored' (the original)"""
     if g == "skipped":
-        return True
+        return None
     if not isinstance(g, list) or len(g) != len(o["res"]):
-        return False
+        return "active" if o["op"] in ("enter", "reenter") else "restored"
     for t, (want, gt) in enumerate(zip(o["res"], g)):
+        what = "restored" if want["slot"] == "orig" else "active"
         if want["slot"] != gt.get("slot"):
-            return False
+            return what
         gc = gt.get("calls") or []
         if len(gc) != len(want["convs"]):
-            return False
+            return what
         for n, (conv, c) in enumerate(zip(want["convs"], gc)):
             if conv == "read":
                 if c.get("slot") != want["slot"]:
-                    return False
+                    return what
                 continue
             if c.get("reach") != want["reach"] or c.get("x") != xval(t, n) or c.get("y") != step or c.get("result") != "agrees" or c.get("bound") != want["bound"]:
-                return False
-    return True
+                return what
+    return None
 
 
 def main():
@@ -420,9 +435,10 @@ def main():
         except BaseException as e:
             out.append({"i": i, "got": "harness exception %s: %s" % (type(e).__name__, e), "diff": [0]})
             continue
-        diff = [j for j, (o, g) in enumerate(zip(c["h"], got)) if not matches(o, g, j + 1)]
+        why = [(j, mismatch(o, g, j + 1)) for j, (o, g) in enumerate(zip(c["h"], got))]
+        diff = [j for j, w in why if w]
         if diff:
-            out.append({"i": i, "got": got, "diff": diff})
+            out.append({"i": i, "got": got, "diff": diff, "why": [w for j, w in why if w][0]})
     out.append({"n": len(cases)})
     json.dump(out, real_out, default=lambda x: "<%s>" % type(x).__name__)
     real_out.flush()
